@@ -141,6 +141,11 @@ type XServer struct {
 func (w *XW) AddServer(i int, tail, head uint64, opts ...p2p.Option[p2p.ServerParameters]) (*XServer, error) {
 	var err error
 	xs := &XServer{Idx: i, Tail: tail, Head: head}
+	// lifecycle: some servers have been stopped and started again (the same object) before they serve
+	restarted := w.S.Tape.Coin("server-restarted", 1, 6)
+	if restarted {
+		w.S.Probe("server-restarted")
+	}
 	_, fin := w.S.Do(fmt.Sprintf("start-server%d", i), 10*time.Minute, func() {
 		disk := simdisk.New(fmt.Sprintf("srv%d", i), w.S)
 		var st *store.Store[*H]
@@ -173,6 +178,11 @@ func (w *XW) AddServer(i int, tail, head uint64, opts ...p2p.Option[p2p.ServerPa
 			return
 		}
 		err = xs.Srv.Start(ctx)
+		if err == nil && restarted {
+			if err = xs.Srv.Stop(ctx); err == nil {
+				err = xs.Srv.Start(ctx)
+			}
+		}
 	})
 	if !fin && err == nil {
 		err = fmt.Errorf("server %d start did not finish", i)
